@@ -1,84 +1,565 @@
-(* C07: thread lifecycle — spawn, join, scope, thread-locals.  Model: Prim/Tls.v, Lang/ThreadOps.v
-   (thread_epilogue_d, scoped_epilogue_d, tls_loop, join_code), Lang/Prog.v (PTlsWith, PThreadId, PScope, PScopeSpawn).
-   Statements only. *)
+(* C07: thread lifecycle - spawn, join, scope and thread-locals behave as in std.
+   Statements only; proofs: Proofs/TlsProofs.v (thread-locals), Proofs/LifecycleProofs.v (join, epilogue, scope,
+   finished tasks).  Definitions used by the statements: tls_ok, task_of, tls_run, inits_of, pops_of, num_keys
+   (Proofs/TlsProofs.v); fin_in, quiet, drains, join_final, scope_step (Proofs/LifecycleProofs.v). *)
 From Coq Require Import List NArith Bool Arith.
-From SV Require Import Clock.VClock Prim.Objects Prim.Atomic Prim.Tls Engine.Exec Lang.Code Lang.ThreadOps Lang.Prog Proofs.TlsBase.
+From SV Require Import Clock.VClock Prim.Objects Prim.Atomic Prim.Tls Engine.Exec Engine.Inv Sched.Replay Engine.Stmt
+  Lang.Prog Lang.SyncOps Proofs.EngineBase Proofs.EngineInv Proofs.ProgOk Proofs.TlsProofs Proofs.LifecycleProofs.
 Import ListNotations.
+Local Open Scope nat_scope.
 
-Theorem C07_tls_no_resurrection : forall st tls tid key add l init d,
-  tls_table st tls = Some l -> get_obj st key = Some (OKey init d) ->
-  tls_lookup (tls_of l tid) key = Some None ->
-  tls_with st tls tid key add = Some (st, TlsDestroyed, 0%N).
-Proof. exact tls_with_destroyed. Qed.
-Print Assumptions C07_tls_no_resurrection.
+(* ================================================================== *)
+(* A. thread-locals                                                    *)
+(* ================================================================== *)
+(* A1: the slot map of every task stays well formed: keys pairwise distinct, and the destructor queue is exactly the
+   keys whose slot still holds a value, in insertion order *)
+Theorem C07_tls_ok_empty : tls_ok empty_tls.
+Proof. exact empty_tls_ok. Qed.
+Print Assumptions C07_tls_ok_empty.
 
+Theorem C07_tls_with_preserves : forall st tls tid key add st' status old l,
+  tls_table st tls = Some l -> (forall t, tls_ok (tls_of l t)) ->
+  tls_with st tls tid key add = Some (st', status, old) ->
+  exists l', tls_table st' tls = Some l' /\ forall t, tls_ok (tls_of l' t).
+Proof. exact tls_with_preserves. Qed.
+Print Assumptions C07_tls_with_preserves.
+
+Theorem C07_tls_pop_preserves : forall st tls tid st' res l,
+  tls_table st tls = Some l -> (forall t, tls_ok (tls_of l t)) ->
+  tls_pop st tls tid = Some (st', res) ->
+  exists l', tls_table st' tls = Some l' /\ forall t, tls_ok (tls_of l' t).
+Proof. exact tls_pop_preserves. Qed.
+Print Assumptions C07_tls_pop_preserves.
+
+(* A2: every task has its own instance; nothing else in the store is touched *)
+Theorem C07_tls_with_other_task : forall st tls tid key add st' status old tid',
+  tls_with st tls tid key add = Some (st', status, old) -> tid' <> tid ->
+  task_of st' tls tid' = task_of st tls tid'.
+Proof. exact tls_with_other_task. Qed.
+Print Assumptions C07_tls_with_other_task.
+
+Theorem C07_tls_pop_other_task : forall st tls tid st' res tid',
+  tls_pop st tls tid = Some (st', res) -> tid' <> tid ->
+  task_of st' tls tid' = task_of st tls tid'.
+Proof. exact tls_pop_other_task. Qed.
+Print Assumptions C07_tls_pop_other_task.
+
+Theorem C07_tls_with_frame : forall st tls tid key add st' status old i,
+  tls_with st tls tid key add = Some (st', status, old) -> i <> tls -> get_obj st' i = get_obj st i.
+Proof. exact tls_with_frame. Qed.
+Print Assumptions C07_tls_with_frame.
+
+Theorem C07_tls_pop_frame : forall st tls tid st' res i,
+  tls_pop st tls tid = Some (st', res) -> i <> tls -> get_obj st' i = get_obj st i.
+Proof. exact tls_pop_frame. Qed.
+Print Assumptions C07_tls_pop_frame.
+
+(* A3: lazy initialisation *)
 Theorem C07_tls_lazy_init : forall st tls tid key add l init d,
   tls_table st tls = Some l -> get_obj st key = Some (OKey init d) ->
   tls_lookup (tls_of l tid) key = None ->
-  exists st', tls_with st tls tid key add = Some (st', TlsInit, init).
-Proof. exact tls_with_first. Qed.
+  exists st', tls_with st tls tid key add = Some (st', TlsInit, init)
+    /\ tls_lookup (task_of st' tls tid) key = Some (Some ((init + add) mod W64)%N)
+    /\ tl_order (task_of st' tls tid) = tl_order (tls_of l tid) ++ [key]
+    /\ map fst (tl_locals (task_of st' tls tid)) = map fst (tl_locals (tls_of l tid)) ++ [key].
+Proof. exact tls_with_lazy_init. Qed.
 Print Assumptions C07_tls_lazy_init.
 
 Theorem C07_tls_live : forall st tls tid key add l init d v,
   tls_table st tls = Some l -> get_obj st key = Some (OKey init d) ->
   tls_lookup (tls_of l tid) key = Some (Some v) ->
-  exists st', tls_with st tls tid key add = Some (st', TlsOk, v).
+  exists st', tls_with st tls tid key add = Some (st', TlsOk, v)
+    /\ tls_lookup (task_of st' tls tid) key = Some (Some ((v + add) mod W64)%N)
+    /\ tl_order (task_of st' tls tid) = tl_order (tls_of l tid)
+    /\ map fst (tl_locals (task_of st' tls tid)) = map fst (tl_locals (tls_of l tid)).
 Proof. exact tls_with_live. Qed.
 Print Assumptions C07_tls_live.
 
-Theorem C07_tls_pop_oldest : forall st tls tid l st' key v d,
-  tls_table st tls = Some l -> tls_pop st tls tid = Some (st', Some (key, v, d)) ->
-  exists r, tl_order (tls_of l tid) = key :: r /\ tls_lookup (tls_of l tid) key = Some (Some v).
-Proof. exact tls_pop_oldest. Qed.
-Print Assumptions C07_tls_pop_oldest.
+(* A4: access during or after destruction is an error, and never resurrects the value *)
+Theorem C07_tls_destroyed : forall st tls tid key add l init d,
+  tls_table st tls = Some l -> get_obj st key = Some (OKey init d) ->
+  tls_lookup (tls_of l tid) key = Some None ->
+  tls_with st tls tid key add = Some (st, TlsDestroyed, 0%N).
+Proof. exact tls_with_destroyed. Qed.
+Print Assumptions C07_tls_destroyed.
 
-Theorem C07_join_after_finish : forall target e s e' s',
-  join_last target e s = Some (e', s') ->
-  exists tk, get_task e target = Some tk /\ is_finished tk = true.
-Proof. exact join_last_finished. Qed.
-Print Assumptions C07_join_after_finish.
+Theorem C07_pop_tombstone : forall st tls tid st' key v d,
+  tls_pop st tls tid = Some (st', Some (key, v, d)) -> tls_lookup (task_of st' tls tid) key = Some None.
+Proof. exact pop_tombstone. Qed.
+Print Assumptions C07_pop_tombstone.
 
+Theorem C07_tombstone_forever : forall tls ops st tid key,
+  tls_lookup (task_of st tls tid) key = Some None ->
+  tls_lookup (task_of (tls_run tls st ops) tls tid) key = Some None.
+Proof. exact tombstone_forever. Qed.
+Print Assumptions C07_tombstone_forever.
+
+Theorem C07_no_resurrection : forall tls ops st tid key add st' status old,
+  tls_lookup (task_of st tls tid) key = Some None ->
+  tls_with (tls_run tls st ops) tls tid key add = Some (st', status, old) ->
+  status = TlsDestroyed /\ old = 0%N /\ st' = tls_run tls st ops.
+Proof. exact no_resurrection. Qed.
+Print Assumptions C07_no_resurrection.
+
+(* A5: destructors run exactly once per initialised value, in initialisation order *)
+Theorem C07_destructor_order : forall tls st ops tid,
+  tls_table st tls = Some [] ->
+  inits_of tls st ops tid = pops_of tls st ops tid ++ tl_order (task_of (tls_run tls st ops) tls tid)
+  /\ prefix (pops_of tls st ops tid) (inits_of tls st ops tid)
+  /\ NoDup (inits_of tls st ops tid)
+  /\ NoDup (pops_of tls st ops tid)
+  /\ (tl_order (task_of (tls_run tls st ops) tls tid) = [] -> pops_of tls st ops tid = inits_of tls st ops tid).
+Proof. exact destructor_order. Qed.
+Print Assumptions C07_destructor_order.
+
+(* A6: the number of destructor rounds of a task is bounded by the number of key objects; TLS_ROUNDS suffices for stores
+   with fewer than TLS_ROUNDS keys; the internal assertions of pop_local / try_with never fire *)
+Theorem C07_pops_bounded : forall tls st ops tid,
+  tls_table st tls = Some [] ->
+  length (pops_of tls st ops tid) <= length (inits_of tls st ops tid)
+  /\ length (inits_of tls st ops tid) <= num_keys st.
+Proof. exact pops_bounded. Qed.
+Print Assumptions C07_pops_bounded.
+
+Theorem C07_tls_rounds_bound : forall tls st ops tid,
+  tls_table st tls = Some [] -> num_keys st < TLS_ROUNDS ->
+  length (pops_of tls st ops tid) < TLS_ROUNDS.
+Proof. intros tls st ops tid. exact (tls_rounds_bound tls st ops tid TLS_ROUNDS). Qed.
+Print Assumptions C07_tls_rounds_bound.
+
+Theorem C07_pop_never_fails : forall tls st ops tid,
+  tls_table st tls = Some [] -> tls_pop (tls_run tls st ops) tls tid <> None.
+Proof. exact pop_never_fails. Qed.
+Print Assumptions C07_pop_never_fails.
+
+Theorem C07_with_never_fails : forall tls st ops tid key add init d,
+  tls_table st tls = Some [] -> get_obj st key = Some (OKey init d) ->
+  tls_with (tls_run tls st ops) tls tid key add <> None.
+Proof. exact with_never_fails. Qed.
+Print Assumptions C07_with_never_fails.
+
+(* ================================================================== *)
+(* B. join and the thread epilogue                                     *)
+(* ================================================================== *)
+(* B1 *)
 Theorem C07_join_code_shape : forall target k,
   join_code target k =
-  atomic_b (fun e s => match get_task e target with Some tk => Some (e, s, is_finished tk) | None => None end)
-    (fun fin => switch_if fin
-      (atomic_b (fun e s =>
-          match me e with
-          | None => None
-          | Some m =>
-            match e_set_waiter e target m with
-            | None => None
-            | Some (e', true) => match e_block e' m false with Some e'' => Some (e'', s, true) | None => None end
-            | Some (e', false) => Some (e', s, false)
-            end
-          end)
-        (fun should_block => switch_if should_block (atomic_u (join_last target) k)))).
+  atomic_b (join_check target)
+    (fun fin => switch_if fin (atomic_b (join_wait target) (fun sb => switch_if sb (atomic_u (join_final target) k)))).
 Proof. exact join_code_shape. Qed.
 Print Assumptions C07_join_code_shape.
 
-(* non-vacuity: two threads and a scoped thread; key 1 (initial value 5) has a destructor body (body 3) that touches
-   key 2 and its own key *)
-Definition c07_objs : store := [OAtomic 0 []; OKey 5 (Some 3%nat); OKey 7 None; OScope 0 0 false].
-Definition c07_prog : list (list op) :=
-  [[PTlsWith 1 2; PSpawn 1; PScope 3 2; PJoin 0; PThreadId];
-   [PTlsWith 1 1; PTlsWith 2 4];
-   [PScopeSpawn 3 1; PJoin 0];
-   [PAtomic 0 (AAdd 1); PTlsWith 2 1; PTlsWith 1 1]].
-Definition c07_run := run_prog 200 MSNone c07_objs c07_prog [] 0.
-Definition c07_ops (w : world) : list (nat * N * list N) :=
-  rev (flat_map (fun ev => match ev with EvOp t tag vals _ => [(t, tag, vals)] | _ => [] end) (w_trace w)).
+Theorem C07_join_final_spec : forall target e s e' s',
+  join_final target e s = Some (e', s') ->
+  s' = s /\ fin_in e target /\ fin_in e' target
+  /\ exists m tk, me e = Some m /\ get_task e target = Some tk /\ is_finished tk = true
+       /\ e_update_clock e m (t_clock tk) = Some e'
+       /\ exists cm c1, e_clock e m = Some cm /\ increment cm m = Some c1 /\ e_clock e' m = Some (update c1 (t_clock tk)).
+Proof. exact join_final_spec. Qed.
+Print Assumptions C07_join_final_spec.
 
-(* task 1 and task 2 run the same body: each lazily initialises its own instances (5 and 7), the destructor of key 1
-   (value 6) runs body 3, which adds to key 2 (still live: 11) and finds its own key destructed (status 2); key 2 is
-   destructed second (12); the joins (values 1002, 1001) come after all of that; main's own instance of key 1 holds 7 *)
-Example c07_example :
-  snd c07_run = OPass /\ c07_ops (fst (fst c07_run)) =
-  ([(0%nat, 38, [1; 1; 5]); (0%nat, 1, [1]); (0%nat, 41, [3]); (0%nat, 1, [2]); (1%nat, 38, [1; 1; 5]);
-   (1%nat, 38, [2; 1; 7]); (1%nat, 9, []); (1%nat, 39, [1; 6]); (1%nat, 7, [1; 0]);
-   (1%nat, 38, [2; 0; 11]); (1%nat, 38, [1; 2; 0]); (1%nat, 39, [2; 12]); (2%nat, 38, [1; 1; 5]);
-   (2%nat, 38, [2; 1; 7]); (2%nat, 9, []); (2%nat, 39, [1; 6]); (2%nat, 7, [1; 1]);
-   (2%nat, 38, [2; 0; 11]); (2%nat, 38, [1; 2; 0]); (2%nat, 39, [2; 12]); (0%nat, 2, [2; 1002]);
-   (0%nat, 41, []); (0%nat, 2, [1; 1001]); (0%nat, 40, [0; 1]);
-   (0%nat, 9, []); (0%nat, 39, [1; 7]); (0%nat, 7, [1; 2]);
-   (0%nat, 38, [2; 1; 7]); (0%nat, 38, [1; 2; 0]); (0%nat, 39, [2; 8])]%N)%type.
+Theorem C07_join_final_unfinished : forall target e s tk,
+  get_task e target = Some tk -> is_finished tk = false -> join_final target e s = None.
+Proof. exact join_final_unfinished. Qed.
+Print Assumptions C07_join_final_unfinished.
+
+Theorem C07_join_wait_spec : forall target e s e' s' b,
+  join_wait target e s = Some (e', s', b) ->
+  s' = s /\ exists m tk, me e = Some m /\ get_task e target = Some tk /\ b = negb (is_finished tk)
+    /\ (b = true ->
+        (exists tk', get_task e' target = Some tk' /\ t_waiter tk' = Some m)
+        /\ (exists tkm, get_task e' m = Some tkm /\ t_state tkm = Blocked false)).
+Proof. exact join_wait_spec. Qed.
+Print Assumptions C07_join_wait_spec.
+
+Theorem C07_join_continues_after_finish : forall SS (sch : scheduler SS) ms target k w st w' st' r,
+  run_seg sch ms (atomic_u (join_final target) k) w st = (w', st', r) ->
+  (join_final target (w_e w) (w_s w) = None /\ r = SegPanic /\ w' = w /\ st' = st)
+  \/ exists e1, join_final target (w_e w) (w_s w) = Some (e1, w_s w) /\ fin_in (w_e w) target /\ fin_in e1 target
+       /\ run_seg sch ms k (mkWorld e1 (w_s w) (w_conts w) (w_trace w)) st = (w', st', r).
+Proof. intros SS sch ms. exact (join_continues_after_finish sch ms). Qed.
+Print Assumptions C07_join_continues_after_finish.
+
+(* B2: the result is published (and the joiner unblocked) only after the destructor loop found nothing left *)
+Theorem C07_tls_loop_drains : forall n tls dtor last,
+  dtor_drains tls last dtor -> drains tls last (tls_loop n tls dtor last).
+Proof. exact tls_loop_drains. Qed.
+Print Assumptions C07_tls_loop_drains.
+
+Theorem C07_thread_epilogue_drains : forall tls dtor,
+  dtor_drains tls publish_code dtor -> drains tls publish_code (thread_epilogue_d tls dtor).
+Proof. exact thread_epilogue_drains. Qed.
+Print Assumptions C07_thread_epilogue_drains.
+
+Theorem C07_scoped_epilogue_drains : forall z tls dtor,
+  dtor_drains tls publish_code dtor -> drains tls publish_code (scoped_epilogue_d z tls dtor).
+Proof. exact scoped_epilogue_drains. Qed.
+Print Assumptions C07_scoped_epilogue_drains.
+
+Theorem C07_thread_fin_drains : forall tls dtor,
+  dtor_drains tls publish_code dtor -> drains tls publish_code (thread_fin tls dtor [] []).
+Proof. exact thread_fin_drains. Qed.
+Print Assumptions C07_thread_fin_drains.
+
+Theorem C07_drains_sound : forall SS (sch : scheduler SS) ms tls last c, drains tls last c -> forall w st w' st' r,
+  run_seg sch ms c w st = (w', st', r) ->
+  r = SegPanic
+  \/ (exists w1 st1 m, me (w_e w1) = Some m /\ tl_order (task_of (w_s w1) tls m) = []
+                       /\ run_seg sch ms last w1 st1 = (w', st', r))
+  \/ (exists k', r = SegYield k' /\ drains tls last k').
+Proof. intros SS sch ms. exact (drains_sound sch ms). Qed.
+Print Assumptions C07_drains_sound.
+
+Theorem C07_publish_block_spec : forall e s e' s',
+  publish_block e s = Some (e', s') ->
+  s' = s /\ exists t tk, me e = Some t /\ get_task e t = Some tk
+    /\ match t_waiter tk with
+       | None => e' = with_tasks e (list_upd (tasks e) t (fun tk => set_waiter_f tk None))
+       | Some w => e_unblock (with_tasks e (list_upd (tasks e) t (fun tk => set_waiter_f tk None))) w = Some e'
+       end.
+Proof. exact publish_block_spec. Qed.
+Print Assumptions C07_publish_block_spec.
+
+(* B3: a finished task never runs again *)
+Theorem C07_finished_never_runs : forall SS (sch : scheduler SS) ms fuel main objs st w st' out,
+  Run sch ms fuel main objs st w st' out ->
+  forall l1 pre off cur y ch l2 t,
+    chrono w = l1 ++ EvDecision pre off cur y ch :: l2 -> fin_in pre t ->
+    Forall (quiet t) l2.
+Proof. exact finished_never_runs. Qed.
+Print Assumptions C07_finished_never_runs.
+
+Theorem C07_finished_never_chosen : forall SS (sch : scheduler SS) ms fuel main objs st w st' out,
+  Run sch ms fuel main objs st w st' out -> sane sch ->
+  forall l1 pre off cur y ch l2 t,
+    chrono w = l1 ++ EvDecision pre off cur y ch :: l2 -> fin_in pre t ->
+    forall pre' off' cur' y' ch', In (EvDecision pre' off' cur' y' ch') l2 -> ch' <> Some t.
+Proof. exact finished_never_chosen. Qed.
+Print Assumptions C07_finished_never_chosen.
+
+Theorem C07_finished_quiet_loop : forall SS (sch : scheduler SS) ms fuel w st w' st' out t,
+  LInv sch ms w -> fin_in (w_e w) t -> run_loop sch ms fuel w st = (w', st', out) ->
+  fin_in (w_e w') t /\ exists evs, w_trace w' = evs ++ w_trace w /\ Forall (quiet t) evs.
+Proof. intros SS sch ms. exact (finished_quiet_loop sch ms). Qed.
+Print Assumptions C07_finished_quiet_loop.
+
+Theorem C07_join_then_quiet_seg : forall SS (sch : scheduler SS) ms target tag vals k w st w' st' r m,
+  code_ok k -> LInv sch ms w -> running (w_e w) (w_trace w) m ->
+  run_seg sch ms (atomic_u (join_final target) (Log tag vals k)) w st = (w', st', r) ->
+  (join_final target (w_e w) (w_s w) = None /\ r = SegPanic /\ w' = w)
+  \/ (fin_in (w_e w) target /\ fin_in (w_e w') target /\ m <> target
+      /\ exists clk evs, w_trace w' = evs ++ EvOp m tag vals clk :: w_trace w /\ Forall (quiet target) evs).
+Proof. intros SS sch ms. exact (join_then_quiet_seg sch ms). Qed.
+Print Assumptions C07_join_then_quiet_seg.
+
+(* whole runs of code in which every join record directly follows the last block of that join ... *)
+Theorem C07_joined_never_runs : forall SS (sch : scheduler SS) ms fuel main objs st w st' out,
+  Run sch ms fuel main objs st w st' out -> lg join_record main ->
+  forall l1 m t v clk l2,
+    chrono w = l1 ++ EvOp m TAG_JOIN [N.of_nat t; v] clk :: l2 ->
+    Forall (quiet t) l2 /\ fin_in (w_e w) t.
+Proof. exact joined_never_runs. Qed.
+Print Assumptions C07_joined_never_runs.
+
+(* ... which is the case for every program of Lang/Prog.v ... *)
+Theorem C07_compile_join_records : forall jt bodies, lg join_record (compile jt bodies).
+Proof. exact compile_lg_all. Qed.
+Print Assumptions C07_compile_join_records.
+
+(* ... so: for every program and schedule, after a join on t has returned no event involves t *)
+Theorem C07_join_returned_never_runs : forall fuel ms objs bodies script seed w st' out,
+  run_prog fuel ms objs bodies script seed = (w, st', out) ->
+  forall l1 m t v clk l2,
+    chrono w = l1 ++ EvOp m TAG_JOIN [N.of_nat t; v] clk :: l2 ->
+    Forall (quiet t) l2 /\ fin_in (w_e w) t.
+Proof. exact join_returned_never_runs. Qed.
+Print Assumptions C07_join_returned_never_runs.
+
+(* thread ids *)
+Theorem C07_spawn_fresh_id : forall e e' tid, rok e -> spawn_thread_now e = Some (e', tid) ->
+  tid = length (tasks e) /\ get_task e tid = None /\ length (tasks e') = S (length (tasks e))
+  /\ (exists tk, get_task e' tid = Some tk /\ t_state tk = Runnable /\ t_waiter tk = None)
+  /\ current e' = current e.
+Proof. exact spawn_fresh_id. Qed.
+Print Assumptions C07_spawn_fresh_id.
+
+Theorem C07_thread_id : forall e st e' st' a,
+  thread_id_block e st = Some (e', st', a) -> e' = e /\ st' = st /\ exists m, current e = SSome m /\ a = [N.of_nat m; 1%N].
+Proof. exact thread_id_block_spec. Qed.
+Print Assumptions C07_thread_id.
+
+(* ================================================================== *)
+(* C. scope                                                            *)
+(* ================================================================== *)
+Theorem C07_scope_end_block : forall z e st e' st' blk,
+  scope_end_block z e st = Some (e', st', blk) ->
+  exists m r mt w, me e = Some m /\ scope_get st z = Some (r, mt, w) /\ blk = negb (Nat.eqb r 0)
+    /\ ((r = 0 /\ e' = e /\ st' = st)
+        \/ (r <> 0 /\ e_block e m false = Some e' /\ st' = set_obj st z (OScope r mt true)
+            /\ scope_get st' z = Some (r, mt, true))).
+Proof. exact scope_end_block_spec. Qed.
+Print Assumptions C07_scope_end_block.
+
+Theorem C07_scoped_exit_block : forall z e s e' s',
+  scoped_exit_block z e s = Some (e', s') ->
+  exists r m w, scope_get s z = Some (S r, m, w) /\ s' = set_obj s z (OScope r m w) /\ scope_get s' z = Some (r, m, w)
+    /\ ((r = 0 /\ w = true /\ e_unblock e m = Some e') \/ (~ (r = 0 /\ w = true) /\ e' = e)).
+Proof. exact scoped_exit_block_spec. Qed.
+Print Assumptions C07_scoped_exit_block.
+
+Theorem C07_scoped_exit_no_spurious_unblock : forall z e s e' s' r m,
+  scoped_exit_block z e s = Some (e', s') -> scope_get s z = Some (S r, m, false) -> e' = e.
+Proof. exact scoped_exit_no_spurious_unblock. Qed.
+Print Assumptions C07_scoped_exit_no_spurious_unblock.
+
+Theorem C07_scope_shapes : forall z tls dtor k,
+  scope_end z k = atomic_b (scope_end_block z) (fun blk => switch_if blk k)
+  /\ scoped_epilogue_d z tls dtor =
+     atomic_b exit_point_block
+       (fun b => switch_if b (atomic_u (scoped_exit_block z) (tls_loop TLS_ROUNDS tls dtor publish_code)))
+  /\ thread_epilogue_d tls dtor =
+     atomic_b exit_point_block (fun b => switch_if b (tls_loop TLS_ROUNDS tls dtor publish_code))
+  /\ publish_code = atomic_u publish_block Ret.
+Proof.
+  intros z tls dtor k.
+  exact (conj (scope_end_shape z k) (conj (scoped_epilogue_shape z tls dtor) (conj (thread_epilogue_shape tls dtor) publish_code_shape))).
+Qed.
+Print Assumptions C07_scope_shapes.
+
+(* C2 *)
+Theorem C07_scope_count : forall s, scope_reach s -> sa_running s + sa_ended s = sa_spawned s.
+Proof. exact scope_count. Qed.
+Print Assumptions C07_scope_count.
+
+Theorem C07_scope_returns_after_all : forall s, scope_reach s -> sa_pc s = MReturned -> sa_ended s = sa_spawned s.
+Proof. exact scope_returns_after_all. Qed.
+Print Assumptions C07_scope_returns_after_all.
+
+Theorem C07_scope_return_step : forall s s',
+  scope_reach s -> scope_step s s' -> sa_pc s <> MReturned -> sa_pc s' = MReturned ->
+  sa_running s = 0 /\ sa_ended s = sa_spawned s.
+Proof. exact scope_return_step. Qed.
+Print Assumptions C07_scope_return_step.
+
+Theorem C07_scope_unblock_only_waiting : forall s r, scope_reach s -> sa_running s = S r ->
+  Nat.eqb r 0 && sa_waiting s = true -> sa_pc s = MWaiting /\ sa_blocked s = true.
+Proof. exact scope_unblock_only_waiting. Qed.
+Print Assumptions C07_scope_unblock_only_waiting.
+
+Theorem C07_scope_returned_final : forall s s', scope_reach s -> sa_pc s = MReturned -> ~ scope_step s s'.
+Proof. exact scope_returned_final. Qed.
+Print Assumptions C07_scope_returned_final.
+
+Theorem C07_scope_spawn_refines : forall z e st e' st' s,
+  scope_rep st z s -> sa_pc s = MBody \/ 0 < sa_running s ->
+  scope_spawn_block z e st = Some (e', st') ->
+  exists s', scope_step s s' /\ scope_rep st' z s' /\ e' = e.
+Proof. exact scope_spawn_refines. Qed.
+Print Assumptions C07_scope_spawn_refines.
+
+Theorem C07_scoped_exit_refines : forall z e st e' st' s,
+  scope_rep st z s -> scoped_exit_block z e st = Some (e', st') ->
+  exists s' r, sa_running s = S r /\ scope_step s s' /\ scope_rep st' z s'
+    /\ (sa_blocked s' <> sa_blocked s -> exists m, scope_get st z = Some (S r, m, true) /\ e_unblock e m = Some e')
+    /\ (Nat.eqb r 0 && sa_waiting s = false -> e' = e).
+Proof. exact scoped_exit_refines. Qed.
+Print Assumptions C07_scoped_exit_refines.
+
+Theorem C07_scope_end_refines : forall z e st e' st' blk s,
+  scope_rep st z s -> sa_pc s = MBody ->
+  scope_end_block z e st = Some (e', st', blk) ->
+  exists s', scope_step s s' /\ scope_rep st' z s' /\ blk = sa_blocked s'
+    /\ (blk = false -> sa_pc s' = MReturned /\ e' = e)
+    /\ (blk = true -> sa_pc s' = MWaiting /\ exists m, me e = Some m /\ e_block e m false = Some e').
+Proof. exact scope_end_refines. Qed.
+Print Assumptions C07_scope_end_refines.
+
+(* ================================================================== *)
+(* the engine-level statements hold for every program of Lang/Prog.v   *)
+(* ================================================================== *)
+Example finished_never_runs_programs :
+  forall ms fuel objs bodies script seed w st' out,
+    run_prog fuel ms objs bodies script seed = (w, st', out) ->
+    forall l1 pre off cur y ch l2 t,
+      chrono w = l1 ++ EvDecision pre off cur y ch :: l2 -> fin_in pre t -> Forall (quiet t) l2.
+Proof.
+  intros ms fuel objs bodies script seed w st' out H.
+  eapply C07_finished_never_runs. split; [apply compile_ok|exact H].
+Qed.
+Print Assumptions finished_never_runs_programs.
+
+(* ================================================================== *)
+(* non-vacuity                                                         *)
+(* ================================================================== *)
+Definition ops_of (tr : list event) : list (nat * N * list N) :=
+  flat_map (fun ev => match ev with EvOp t tag vals _ => [(t, tag, vals)] | _ => [] end) (rev tr).
+
+(* ---- the table, directly: two tasks, two keys (one with a destructor body), histories of try_with / pop ---- *)
+Definition c07_st0 : store := [OKey 10 (Some 7); OKey 20 None; OAtomic 0 []; OTls []].
+Definition c07_ops0 : list tls_op :=
+  [TOpWith 1 0 1; TOpWith 2 0 5; TOpWith 1 1 2; TOpWith 1 0 1; TOpPop 1; TOpWith 1 0 9; TOpWith 1 2 1;
+   TOpPop 2; TOpPop 1; TOpPop 1; TOpPop 2].
+
+Example c07_table_history :
+  tls_table c07_st0 3 = Some []
+  /\ num_keys c07_st0 = 2
+  /\ inits_of 3 c07_st0 c07_ops0 1 = [0; 1] /\ pops_of 3 c07_st0 c07_ops0 1 = [0; 1]
+  /\ inits_of 3 c07_st0 c07_ops0 2 = [0] /\ pops_of 3 c07_st0 c07_ops0 2 = [0]
+  /\ tls_run 3 c07_st0 c07_ops0 =
+     [OKey 10 (Some 7); OKey 20 None; OAtomic 0 [];
+      OTls [(1, mkTls [(0, None); (1, None)] []); (2, mkTls [(0, None)] [])]].
+Proof. vm_compute. repeat split; reflexivity. Qed.
+
+Example c07_lazy_then_destroyed :
+  tls_with c07_st0 3 1 0 4
+  = Some ([OKey 10 (Some 7); OKey 20 None; OAtomic 0 []; OTls [(1, mkTls [(0, Some 14%N)] [0])]], TlsInit, 10%N)
+  /\ tls_with (tls_run 3 c07_st0 [TOpWith 1 0 1; TOpPop 1]) 3 1 0 4
+     = Some ([OKey 10 (Some 7); OKey 20 None; OAtomic 0 []; OTls [(1, mkTls [(0, None)] [])]], TlsDestroyed, 0%N)
+  /\ tls_lookup (task_of (tls_run 3 c07_st0 [TOpWith 1 0 1; TOpPop 1]) 3 1) 0 = Some None.
+Proof. vm_compute. repeat split; reflexivity. Qed.
+
+(* ---- a whole program: two threads, three keys; the destructor body of key 0 touches key 2 (initialised during
+   destruction: TlsInit, and destructed in a later round) and its own key (TlsDestroyed); the destructor body of
+   key 1 touches key 0, destructed before it (TlsDestroyed).  The main thread has its own instance of key 0 (it
+   reads 11 after the child's two accesses, not 12), and join hands over thread_value 1 = 1001 after the child's
+   three TLSDROP records. ---- *)
+Definition c07_tls_prog : list (list op) :=
+  [[PTlsWith 0 1; PSpawn 1; PJoin 0; PTlsWith 0 5; PThreadId];
+   [PThreadId; PTlsWith 0 1; PTlsWith 1 2; PTlsWith 0 1];
+   [PTlsWith 2 7; PTlsWith 0 0];
+   [PTlsWith 0 0]].
+Definition c07_tls_objs : store := [OKey 10 (Some 2); OKey 20 (Some 3); OKey 30 None].
+Definition c07_tls_run := run_prog 60 MSNone c07_tls_objs c07_tls_prog [] 0.
+
+Example c07_tls_trace :
+  snd c07_tls_run = OPass
+  /\ ops_of (w_trace (fst (fst c07_tls_run))) =
+     [(0, TAG_TLS, [0; 1; 10]%N); (0, TAG_SPAWN, [1%N]);
+      (1, TAG_TID, [1; 1]%N); (1, TAG_TLS, [0; 1; 10]%N); (1, TAG_TLS, [1; 1; 20]%N); (1, TAG_TLS, [0; 0; 11]%N);
+      (1, TAG_END, []);
+      (1, TAG_TLSDROP, [0; 12]%N); (1, TAG_TLS, [2; 1; 30]%N); (1, TAG_TLS, [0; 2; 0]%N);
+      (1, TAG_TLSDROP, [1; 22]%N); (1, TAG_TLS, [0; 2; 0]%N);
+      (1, TAG_TLSDROP, [2; 37]%N);
+      (0, TAG_JOIN, [1; 1001]%N); (0, TAG_TLS, [0; 0; 11]%N); (0, TAG_TID, [0; 1]%N);
+      (0, TAG_END, []);
+      (0, TAG_TLSDROP, [0; 16]%N); (0, TAG_TLS, [2; 1; 30]%N); (0, TAG_TLS, [0; 2; 0]%N);
+      (0, TAG_TLSDROP, [2; 37]%N)]
+  /\ nth_error (w_s (fst (fst c07_tls_run))) 4 =
+     Some (OTls [(0, mkTls [(0, None); (2, None)] []); (1, mkTls [(0, None); (1, None); (2, None)] [])])
+  /\ thread_value 1 = 1001%N.
+Proof. vm_compute. repeat split; reflexivity. Qed.
+
+(* ---- join in both orders: the joiner blocks until the child has finished (default schedule), or finds it finished
+   (the child is scheduled at the parent's yield); the value is thread_value 1 either way, and the atomic read after
+   the join sees the child's write ---- *)
+Definition c07_join_prog : list (list op) :=
+  [[PSpawn 1; PYield; PJoin 0; PAtomic 0 (AAdd 0)]; [PAtomic 0 (AAdd 5)]].
+Definition c07_join_run (script : list (option nat)) := run_prog 60 MSNone [OAtomic 0 []] c07_join_prog script 0.
+Definition c07_child_first : list (option nat) := [Some 0; Some 0; Some 1; Some 1; Some 1].
+
+Example c07_join_trace :
+  snd (c07_join_run []) = OPass
+  /\ ops_of (w_trace (fst (fst (c07_join_run [])))) =
+     [(0, TAG_SPAWN, [1%N]); (0, TAG_YIELD, []); (1, TAG_ATOMIC, [1; 0]%N); (1, TAG_END, []);
+      (0, TAG_JOIN, [1; 1001]%N); (0, TAG_ATOMIC, [1; 5]%N); (0, TAG_END, [])]
+  /\ snd (c07_join_run c07_child_first) = OPass
+  /\ ops_of (w_trace (fst (fst (c07_join_run c07_child_first)))) =
+     [(0, TAG_SPAWN, [1%N]); (1, TAG_ATOMIC, [1; 0]%N); (1, TAG_END, []); (0, TAG_YIELD, []);
+      (0, TAG_JOIN, [1; 1001]%N); (0, TAG_ATOMIC, [1; 5]%N); (0, TAG_END, [])].
+Proof. vm_compute. repeat split; reflexivity. Qed.
+
+(* the premise of C07_finished_never_runs is met in this run: some decision is taken with task 1 finished *)
+Definition dec_with_finished (t : nat) (ev : event) : bool :=
+  match ev with
+  | EvDecision pre _ _ _ _ => match get_task pre t with Some tk => is_finished tk | None => false end
+  | _ => false
+  end.
+Example c07_join_finished_decisions :
+  length (filter (dec_with_finished 1) (w_trace (fst (fst (c07_join_run []))))) = 3
+  /\ length (filter (dec_with_finished 1) (w_trace (fst (fst (c07_join_run c07_child_first))))) = 4.
 Proof. vm_compute. split; reflexivity. Qed.
+
+(* ---- a scope with two scoped threads: under the default schedule the main task blocks at the end of scope() and is
+   woken by the last scoped thread; under the second schedule both have finished before the end of scope() and it
+   does not block.  Either way the record that closes the scope comes after both END records, and the atomic read
+   after the scope sees all three additions. ---- *)
+Definition c07_scope_prog : list (list op) :=
+  [[PScope 1 1; PAtomic 0 (AAdd 100)];
+   [PScopeSpawn 1 2; PScopeSpawn 1 3; PYield; PAtomic 0 (AAdd 1)];
+   [PAtomic 0 (AAdd 10)];
+   [PAtomic 0 (AAdd 20); PYield]].
+Definition c07_scope_objs : store := [OAtomic 0 []; OScope 0 0 false].
+Definition c07_scope_run (script : list (option nat)) := run_prog 80 MSNone c07_scope_objs c07_scope_prog script 0.
+Definition c07_threads_first : list (option nat) :=
+  [Some 0; Some 0; Some 0; Some 1; Some 1; Some 1; Some 1; Some 1; Some 1; Some 1; Some 1].
+
+Example c07_scope_trace :
+  snd (c07_scope_run []) = OPass
+  /\ ops_of (w_trace (fst (fst (c07_scope_run [])))) =
+     [(0, TAG_SCOPE, [1%N]); (0, TAG_SPAWN, [1%N]); (0, TAG_SPAWN, [2%N]); (0, TAG_YIELD, []);
+      (0, TAG_ATOMIC, [1; 0]%N);
+      (1, TAG_ATOMIC, [1; 1]%N); (1, TAG_END, []);
+      (2, TAG_ATOMIC, [1; 11]%N); (2, TAG_YIELD, []); (2, TAG_END, []);
+      (0, TAG_SCOPE, []); (0, TAG_ATOMIC, [1; 31]%N); (0, TAG_END, [])]
+  /\ nth_error (w_s (fst (fst (c07_scope_run [])))) 1 = Some (OScope 0 0 true)
+  /\ snd (c07_scope_run c07_threads_first) = OPass
+  /\ ops_of (w_trace (fst (fst (c07_scope_run c07_threads_first)))) =
+     [(0, TAG_SCOPE, [1%N]); (0, TAG_SPAWN, [1%N]); (0, TAG_SPAWN, [2%N]);
+      (1, TAG_ATOMIC, [1; 0]%N); (1, TAG_END, []);
+      (2, TAG_ATOMIC, [1; 10]%N); (2, TAG_YIELD, []); (2, TAG_END, []);
+      (0, TAG_YIELD, []); (0, TAG_ATOMIC, [1; 30]%N);
+      (0, TAG_SCOPE, []); (0, TAG_ATOMIC, [1; 31]%N); (0, TAG_END, [])]
+  /\ nth_error (w_s (fst (fst (c07_scope_run c07_threads_first)))) 1 = Some (OScope 0 0 false).
+Proof. vm_compute. repeat split; reflexivity. Qed.
+
+(* ---- the abstract scope: two spawns, the main task blocks, both closures end, the main task returns ---- *)
+Example c07_scope_abs_run :
+  exists s, scope_reach s /\ sa_pc s = MReturned /\ sa_spawned s = 2 /\ sa_ended s = 2 /\ sa_waiting s = true.
+Proof.
+  eexists. split.
+  - eapply SR_step; [eapply SR_step; [eapply SR_step; [eapply SR_step; [eapply SR_step; [eapply SR_step; [apply SR_init|]|]|]|]|]|].
+    + apply SS_spawn. left; reflexivity.
+    + apply SS_spawn. left; reflexivity.
+    + apply SS_end_block; [reflexivity|discriminate].
+    + apply (SS_closure_end _ 1). reflexivity.
+    + apply (SS_closure_end _ 0). reflexivity.
+    + apply SS_end_wake; reflexivity.
+  - cbn. repeat split; reflexivity.
+Qed.
+
+(* ---- drains: a destructor that logs and goes on satisfies the hypothesis of B2 ---- *)
+Example c07_drains_instance :
+  drains 4 publish_code (thread_epilogue_d 4 (fun d k => Log TAG_TLS [N.of_nat d] k)).
+Proof. apply C07_thread_epilogue_drains. intros d k Hk. apply dr_log. exact Hk. Qed.
+
+(* ---- the premise of C07_join_returned_never_runs is met: the run above records a join on task 1, and four more
+   events follow it (none involving task 1, by the theorem) ---- *)
+Definition is_join_rec (t : nat) (ev : event) : bool :=
+  match ev with EvOp _ tag (x :: _) _ => N.eqb tag TAG_JOIN && N.eqb x (N.of_nat t) | _ => false end.
+Fixpoint find_idx {A} (f : A -> bool) (l : list A) : nat :=
+  match l with [] => 0 | x :: r => if f x then 0 else S (find_idx f r) end.
+Definition c07_join_w := fst (fst (c07_join_run [])).
+Definition c07_join_idx := find_idx (is_join_rec 1) (chrono c07_join_w).
+Definition c07_join_clk : vclock :=
+  match nth_error (chrono c07_join_w) c07_join_idx with Some (EvOp _ _ _ c) => c | _ => [] end.
+
+Example c07_join_split :
+  chrono c07_join_w
+  = firstn c07_join_idx (chrono c07_join_w)
+    ++ EvOp 0 TAG_JOIN [N.of_nat 1; 1001%N] c07_join_clk :: skipn (S c07_join_idx) (chrono c07_join_w)
+  /\ length (skipn (S c07_join_idx) (chrono c07_join_w)) = 4
+  /\ c07_join_clk = [2; 2]%N.
+Proof. vm_compute. repeat split; reflexivity. Qed.
+
+Lemma triple_eta : forall A B C (r : A * B * C), r = (fst (fst r), snd (fst r), snd r).
+Proof. intros A B C [[a b] c]. reflexivity. Qed.
+Print Assumptions triple_eta.
+
+Example c07_join_then_quiet :
+  Forall (quiet 1) (skipn (S c07_join_idx) (chrono c07_join_w)) /\ fin_in (w_e c07_join_w) 1.
+Proof.
+  eapply (C07_join_returned_never_runs 60 MSNone [OAtomic 0 []] c07_join_prog [] 0%N c07_join_w).
+  - unfold c07_join_w, c07_join_run. apply triple_eta.
+  - exact (proj1 c07_join_split).
+Qed.
+Print Assumptions c07_join_then_quiet.
